@@ -346,6 +346,15 @@ void mmd_export_image_html(DString * out, const char * source, token * text, lin
 	}
 
 	if (is_figure) {
+		// A figure replaces the wrapping paragraph -- an image that is alone in
+		// some other container (e.g. a table cell) stays an inline image
+		if ((out->currentStringLength < 3) ||
+				(strncmp(&out->str[out->currentStringLength - 3], "<p>", 3) != 0)) {
+			is_figure = false;
+		}
+	}
+
+	if (is_figure) {
 		// Remove wrapping <p> markers
 		d_string_erase(out, out->currentStringLength - 3, 3);
 		print_const("<figure>\n");
